@@ -10,6 +10,7 @@ result = {"import_error": None | {"type", "msg", "module", "line", "text"},
                                    "attrs": [python attribute names of the fields]}},
           "enums": {full_name: {"module", "qualname", "desc": b64(EnumDescriptorProto)}},
           "manifests": {module: [names]},
+          "headers": {module: {"package", "marshal"}}   (the arguments of `__protobuf__ = proto.module(...)` as proto-plus keeps them),
           "roundtrips": [{"bytes_out": b64, "json_out": text, "from_json_out": b64} | {"raised", "msg", "stage"}],
           "types_all": {types package: {"all": [...], "missing": [names of __all__ that are not attributes]}}}
 
@@ -120,6 +121,7 @@ def op_types_session(o):
         out["modules"].append(m.name)
         man = getattr(M, "__protobuf__", None)
         out["manifests"][m.name] = sorted(getattr(man, "manifest", []) or [])
+        out.setdefault("headers", {})[m.name] = {"package": getattr(man, "package", None), "marshal": getattr(man, "marshal", None)}
         for v in list(vars(M).values()):
             if isinstance(v, type) and getattr(v, "__module__", None) == m.name:
                 walk(v, m.name)
